@@ -559,11 +559,15 @@ fn shape(fmt: &str, stage: &str, input: &[u8], out: &Out) -> String {
             .to_string()
         }
         "root" => {
-            let magic = input.len() >= 12 && (&input[..4] == b"TSFM" || &input[..4] == b"MFST");
             // a classic V2 header (magic, total, named) whose counts fall into the window the
-            // header reader takes for an extended header (C03 finding root-v2-small-header-ambiguity)
-            let (t, nm) = if magic { (u32::from_le_bytes([input[4], input[5], input[6], input[7]]), u32::from_le_bytes([input[8], input[9], input[10], input[11]])) } else { (0, 0) };
-            let window = magic && (16..100).contains(&t) && nm < 10;
+            // header reader takes for an extended header (C03 finding root-v2-small-header-ambiguity),
+            // in the input or in the bytes the rebuild wrote
+            let win = |b: &[u8]| {
+                let magic = b.len() >= 12 && (&b[..4] == b"TSFM" || &b[..4] == b"MFST");
+                let (t, nm) = if magic { (u32::from_le_bytes([b[4], b[5], b[6], b[7]]), u32::from_le_bytes([b[8], b[9], b[10], b[11]])) } else { (0, 0) };
+                magic && (16..100).contains(&t) && nm < 10
+            };
+            let window = win(input) || out.rebuilt.as_deref().is_some_and(win);
             match RootFile::parse(input) {
                 _ if window => "v2-small-header-window".to_string(),
                 Ok(r) => {
@@ -603,6 +607,8 @@ fn shape(fmt: &str, stage: &str, input: &[u8], out: &Out) -> String {
         }
         _ => String::new(),
     };
+    // shapes that name a cause on their own: no error-text / field tail
+    let tail = if (fmt == "tvfs") || input_shape == "v2-small-header-window" { String::new() } else { tail };
     [fmt, stage, &input_shape, &tail].iter().filter(|x| !x.is_empty()).map(|x| x.to_string()).collect::<Vec<_>>().join("-")
 }
 
@@ -1044,7 +1050,7 @@ fn gen_tvfs(rng: &mut Rng) -> Option<Vec<u8>> {
             b.add_est_spec(s.to_string());
         }
     }
-    let n = rng.range(1, 12);
+    let n = rng.range(1, 16);
     let dirs = ["", "a", "a/b", "data", "data/x/y", "interface"];
     let mut seen = std::collections::BTreeSet::new();
     for i in 0..n {
@@ -1365,6 +1371,13 @@ fn main() {
                 let sh = shape(fmt, "builder-output-rejected", &bytes, &Out { stage: Stage::Rejected, detail: String::new(), rebuilt: None, logical: None, field: None });
                 cx.s.oracle_fail(&sh, &format!("{fmt}: the builder's own output ({} bytes) is not accepted by the parser", bytes.len()), &[req]);
                 cx.s.tally(&format!("{fmt}:builder-output-rejected"));
+            }
+            // TVFS: a CFT size just above 255 with slack, so that the rebuilt (slack-free) table
+            // drops to a one-byte offset width while the VFS table bytes are kept as they were
+            if *fmt == "tvfs" && (258..0x200).contains(&be32(&bytes, 32)) {
+                let x = apply_muts(&bytes, &[Mut::Set(34, 0x01), Mut::Set(35, 0x02)]);
+                cx.o_inline(fmt, &x);
+                cx.s.tally("tvfs:cft-slack-at-width-boundary");
             }
             for _ in 0..(if th { 6 } else { 3 }) {
                 let ms = gen_muts(&mut rng, bytes.len(), is_text(fmt));
